@@ -392,15 +392,14 @@ func (v *Vue) callFunc(ctx *VueContext, fn any, args ...any) (any, error) {
 		// Try to convert the argument to the expected type
 		if argVal.Type().AssignableTo(argType) {
 			in[i] = argVal
+		} else if converted, ok := convertValue(argVal, argType); ok {
+			// The documented conversions come first: Go's own int -> string
+			// conversion would yield the rune, not the decimal text.
+			in[i] = converted
 		} else if argVal.Type().ConvertibleTo(argType) {
 			in[i] = argVal.Convert(argType)
 		} else {
-			// Try to handle common conversions
-			converted, ok := convertValue(argVal, argType)
-			if !ok {
-				return nil, fmt.Errorf("cannot convert argument %d from %v to %v", i, argVal.Type(), argType)
-			}
-			in[i] = converted
+			return nil, fmt.Errorf("cannot convert argument %d from %v to %v", i, argVal.Type(), argType)
 		}
 	}
 
